@@ -359,3 +359,25 @@ pub proof fn lemma_fwd_step(hs: Seq<VStr>, i: int, hl: Seq<u8>)
     if hs[i]@.len() > 0 && is_host_ci(hs[i]@) { assert(a[i] == hs[i]); }
     if any_host(a) { let k = choose|k: int| 0 <= k < a.len() && a[k]@.len() > 0 && is_host_ci(#[trigger] a[k]@); if k < i { assert(b[k] == a[k]); } }
 }
+// everything determine_target promises, as one predicate (used by its caller)
+pub open spec fn target_derivation(method: Seq<u8>, target: Seq<u8>, hs: Seq<VStr>, ok: bool, host: Seq<u8>, port: u16, path: Seq<u8>, connect: bool) -> bool {
+    &&& (is_connect(method) ==> ok && names_destination(target, 443, host, port) && path.len() == 0 && connect)
+    &&& (!is_connect(method) && occurs_at(target, lit_http(), 0) ==> absolute_form_result(target, 7, 80, ok, host, port, path, connect))
+    &&& (!is_connect(method) && occurs_at(target, lit_https(), 0) ==> absolute_form_result(target, 8, 443, ok, host, port, path, connect))
+    &&& (!is_connect(method) && !occurs_at(target, lit_http(), 0) && !occurs_at(target, lit_https(), 0) ==> origin_form_result(target, hs, ok, host, port, path, connect))
+    &&& (!is_connect(method) && !occurs_at(target, lit_http(), 0) && !occurs_at(target, lit_https(), 0) && first_host_ci(hs) == -1 ==> !ok)
+}
+pub open spec fn lit_http11() -> Seq<u8> { seq![72u8, 84u8, 84u8, 80u8, 47u8, 49u8, 46u8, 49u8] }                 // "HTTP/1.1"
+pub proof fn lemma_split_nonempty(s: Seq<u8>, p: Seq<u8>)
+    ensures split_spec(s, p).len() >= 1
+    decreases s.len()
+{
+    let i = first_occ(s, p);
+    if p.len() == 0 || i < 0 || i + p.len() > s.len() { } else { lemma_split_nonempty(s.subrange(i + p.len(), s.len() as int), p); }
+}
+// ---- where the header block of a request ends in the client's byte stream: just past the FIRST CR LF CR LF ----
+pub open spec fn header_end_at(a: Seq<u8>, n: int) -> bool { n >= 4 && term_at(a, n - 4) && forall|j: int| 0 <= j < n - 4 ==> !term_at(a, j) }
+pub open spec fn header_end(a: Seq<u8>) -> int { if exists|n: int| header_end_at(a, n) { choose|n: int| header_end_at(a, n) } else { -1 } }
+pub proof fn lemma_header_end(a: Seq<u8>, n: int)
+    requires header_end_at(a, n) ensures header_end(a) == n
+{ let q = choose|q: int| header_end_at(a, q); if q < n { } else if n < q { } }
